@@ -30,7 +30,7 @@ func buildServer(r *Rng, set *Settings, wallets []*Wallet, length int, stats *St
 			}
 			amount := r.U64n(u.value - set.Fee + 1)
 			rc := wallets[r.Intn(len(wallets))]
-			outs := []*JOutput{{rc.Addr, r.Chance(1, 6), amount}}
+			outs := []*JOutput{{rc.Addr, r.Chance(1, 2), amount}}
 			if rest := u.value - set.Fee - amount; rest > 0 {
 				outs = append(outs, &JOutput{snd.Addr, false, rest})
 			}
@@ -38,6 +38,18 @@ func buildServer(r *Rng, set *Settings, wallets []*Wallet, length int, stats *St
 			tx := w.build(&txPlan{ins: []spendable{u}, outs: outs, ts: w.now + int64(r.U64n(uint64(set.Interval)))})
 			w.now += set.Interval
 			s.Pool.AddTransaction(tx, "a", "b")
+		}
+		// proof-of-humanity refreshes on the serving node: addresses registered by earlier blocks are
+		// flagged and the next block lists them as removed (registration and removal inside one page)
+		if r.Chance(1, 3) {
+			ans := map[string]int{}
+			for _, wl := range wallets {
+				if r.Chance(1, 2) {
+					ans[wl.Addr] = 0
+				}
+			}
+			s.Humans.answer = ans
+			s.Areg.Synchronize(0)
 		}
 		s.Pool.Validate(w.now)
 		s.Log.Take()
